@@ -89,7 +89,7 @@ theorem C34_source_unchanged (p : Params) (sib : Ents) (src : Node) (cur : Optio
     gone.  (A model-level counterfactual: it shows `C34_source_unchanged` depends on the extracted fact.) -/
 theorem C34_witness_in_place_write_destroys_source :
     sameOutcome (copyTop { Facts.canon with tempThenRename := false } ⟨0o644, false, false⟩ .nil (.file 0) (some (.file 0))
-      [⟨[7, 8], 0o600⟩]) (.ok (.file 0, [⟨[], 0o600⟩])) = true := by decide
+      [⟨[7, 8], 0o600⟩]) (.ok (.file 0, [⟨[], 0o644⟩])) = true := by decide
 
 /-! ### faithfulness -/
 
